@@ -1043,9 +1043,17 @@ func runC19(tier string, seed uint64, out string) error {
 		jobs = append(jobs, js...)
 		tot := s.total()
 		lims := map[int]bool{0: true, 1: true, tot - 1: true, tot - 12: true, s.lens[0]: true, tot / 2: true}
+		// every byte count for short values
+		every := 16
 		if thorough {
+			every = 128
 			for i := 0; i < 6; i++ {
 				lims[r.intn(tot)] = true
+			}
+		}
+		if tot <= every {
+			for l := 0; l < tot; l++ {
+				lims[l] = true
 			}
 		}
 		var ls []int
